@@ -58,7 +58,9 @@ def run(ctx):
         for s in seqs(rnd, 6 if q else 80, 8):
             jobs.append('vy1%sc/%s;;%s' % (m, rnd.choice(RECL), s))
             jobs.append('vy4%sh/%s;;%s' % (m, rnd.choice(RECL), s))
-    itw = ['vy1iic/ebr0;' + p for p in ITW] + ([] if q else ['vy128%sc/%s;%s' % (m, r, p) for p in ITW for m in ('is', 'sm') for r in ('hp3', 'stamp')])
+    # erase(iterator) on ARRAY items of a bucket with a populated extension list (the slot is refilled from the list head) against readers of the moved key
+    ARR = ['emp1,emp2,emp3,emp4;trave0;get4', 'emp1,emp2,emp3,emp4,emp5;trave1;get5,get4', 'emp1,emp2,emp3,emp4,emp5;trave2,emp6;get5,get6', 'emp1,emp2,emp3,emp4;fer2;get4;get3']
+    itw = ['vy1iic/ebr0;' + p for p in ITW] + ['vy128iic/ebr0;' + p for p in ARR] + ['vy128isc/hp3;' + p for p in ARR[:2]] + ([] if q else ['vy128%sc/%s;%s' % (m, r, p) for p in ITW for m in ('is', 'sm') for r in ('hp3', 'stamp')])
     run_vy(ctx, itw, pb=2 if q else 3, max_exec=15000 if q else 100000, max_steps=6000, tagx='w', nsh=len(itw))
     run_vy(ctx, deep, pb=2 if q else 3, max_exec=2500 if q else 40000, max_steps=6000, tagx='d')
     run_vy(ctx, jobs, pb=2 if q else 3, max_exec=300 if q else 30000, max_steps=6000)
